@@ -51,31 +51,62 @@ type bsReq struct {
 type bsEv struct {
 	wrap bool
 	hd   int
+	mv   int // wrap: which middleware value is applied (0 = the case's first)
 	r    *bsReq
 }
 
-type bsCase struct {
+// bsVal: the options of one middleware value.
+type bsVal struct {
 	optsNil bool
 	rm      string
 	req     []string
 	allow   bool
 	skew    int64
-	nh      int
-	evs     []bsEv
-	label   string
 }
 
-func (c *bsCase) mwOp() string {
+// bsCase: the first middleware value (embedded), further values (more), the handlers, the history.
+type bsCase struct {
+	bsVal
+	more  []bsVal
+	nh    int
+	evs   []bsEv
+	label string
+}
+
+func (c *bsCase) val(k int) *bsVal {
+	if k == 0 {
+		return &c.bsVal
+	}
+	return &c.more[k-1]
+}
+
+func (c *bsCase) mwOp(k int) string {
+	v := c.val(k)
 	op := "s"
-	if c.optsNil {
+	if v.optsNil {
 		op = "n"
 	}
-	return fmt.Sprintf("mw op=%s rm=%s rs=%s am=%s sk=%d nh=%d", op, brX(c.rm), brXL(c.req), brB(c.allow), c.skew, c.nh)
+	return fmt.Sprintf("mw op=%s rm=%s rs=%s am=%s sk=%d nh=%d", op, brX(v.rm), brXL(v.req), brB(v.allow), v.skew, c.nh)
+}
+
+// valueOf: the middleware value behind wrapper w (0 if there is no such wrapper).
+func (c *bsCase) valueOf(w int) int {
+	n := 0
+	for _, e := range c.evs {
+		if e.wrap {
+			if n == w {
+				return e.mv
+			}
+			n++
+		}
+	}
+	return 0
 }
 
 func (c *bsCase) reqOp(r *bsReq) string {
 	l := r.brLayer
-	l.optsNil, l.rm, l.req, l.allow, l.skew = c.optsNil, c.rm, c.req, c.allow, c.skew
+	v := c.val(c.valueOf(r.w))
+	l.optsNil, l.rm, l.req, l.allow, l.skew = v.optsNil, v.rm, v.req, v.allow, v.skew
 	h := "-"
 	if r.hdr != nil {
 		h = brXL(r.hdr)
@@ -110,22 +141,28 @@ func bsParse(lines []string) (*bsCase, bool) {
 		switch f[0] {
 		case "mw":
 			var o1, o2 bool
-			c.optsNil = kv["op"] == "n"
-			c.rm, o1 = brUnX(kv["rm"])
-			c.req, o2 = brUnXL(kv["rs"])
-			c.allow = kv["am"] == "1"
-			c.skew, _ = strconv.ParseInt(kv["sk"], 10, 64)
+			var v bsVal
+			v.optsNil = kv["op"] == "n"
+			v.rm, o1 = brUnX(kv["rm"])
+			v.req, o2 = brUnXL(kv["rs"])
+			v.allow = kv["am"] == "1"
+			v.skew, _ = strconv.ParseInt(kv["sk"], 10, 64)
 			n, err := strconv.Atoi(kv["nh"])
-			if !o1 || !o2 || err != nil || n < 1 || n > 16 {
-				return nil, false
+			if !o1 || !o2 || err != nil || n < 1 || n > 16 || len(c.evs) > 0 {
+				return nil, false // all values are made before the history starts
 			}
-			c.nh, seenMW = n, true
+			if !seenMW {
+				c.bsVal, c.nh, seenMW = v, n, true
+			} else {
+				c.more = append(c.more, v)
+			}
 		case "wrap":
 			j, err := strconv.Atoi(kv["hd"])
-			if err != nil || j < 0 || j >= c.nh {
+			mv, _ := strconv.Atoi(kv["mv"])
+			if err != nil || j < 0 || j >= c.nh || mv < 0 || mv > len(c.more) {
 				return nil, false
 			}
-			c.evs = append(c.evs, bsEv{wrap: true, hd: j})
+			c.evs = append(c.evs, bsEv{wrap: true, hd: j, mv: mv})
 		case "sreq":
 			bc, ok := brParse("req " + strings.Join(f[1:], " "))
 			if !ok {
@@ -202,11 +239,16 @@ func bsRun(c *bsCase, emit func(op, obs string, tags ...string)) {
 		}
 		return rt.info, rt.verr
 	}
-	var opts *RequireBearerTokenOptions
-	if !c.optsNil {
-		opts = &RequireBearerTokenOptions{ResourceMetadataURL: c.rm, Scopes: append([]string(nil), c.req...), AllowMissingExpiration: c.allow, ClockSkew: time.Duration(c.skew)}
+	// the middleware values of the session: each made ONCE, before the history starts
+	mws := make([]func(http.Handler) http.Handler, 1+len(c.more))
+	for k := range mws {
+		v := c.val(k)
+		var opts *RequireBearerTokenOptions
+		if !v.optsNil {
+			opts = &RequireBearerTokenOptions{ResourceMetadataURL: v.rm, Scopes: append([]string(nil), v.req...), AllowMissingExpiration: v.allow, ClockSkew: time.Duration(v.skew)}
+		}
+		mws[k] = RequireBearerToken(verifier, opts)
 	}
-	mw := RequireBearerToken(verifier, opts) // the ONE middleware value of the session
 	hs := make([]http.Handler, c.nh)
 	for j := range hs {
 		j := j
@@ -318,14 +360,16 @@ func bsRun(c *bsCase, emit func(op, obs string, tags ...string)) {
 			rt.seen, rt.calls, vt, brXL(sent), brXL(late), brX(rec.Body.String()), strings.Join(hr, ","))
 	}
 	emit("reset", "ok", "reset")
-	emit(c.mwOp(), "ok", "sess:mw")
+	for k := range mws {
+		emit(c.mwOp(k), "ok", "sess:mw")
+	}
 	q := 0
 	for i := 0; i < len(c.evs); {
 		e := c.evs[i]
 		if e.wrap {
-			wrappers = append(wrappers, mw(hs[e.hd]))
+			wrappers = append(wrappers, mws[e.mv](hs[e.hd]))
 			made = append(made, e.hd)
-			emit(fmt.Sprintf("wrap hd=%d", e.hd), "ok", "sess:wrap")
+			emit(fmt.Sprintf("wrap hd=%d mv=%d", e.hd, e.mv), "ok", "sess:wrap")
 			i++
 			continue
 		}
@@ -409,8 +453,11 @@ func bsTags(c *bsCase, i, j, k int, rt *bsRT) []string {
 	if nw > 1 {
 		tags = append(tags, "sess:several-wrappers")
 	}
-	if c.optsNil {
+	if c.val(c.valueOf(rt.r.w)).optsNil {
 		tags = append(tags, "opts:nil")
+	}
+	if len(c.more) > 0 {
+		tags = append(tags, "sess:several-values")
 	}
 	if c.label != "" {
 		tags = append(tags, "sess:"+c.label)
@@ -442,7 +489,7 @@ func bsEnumerate(emit func(*bsCase)) {
 	hGood, hBad := []string{"Bearer tok"}, []string{"Basic tok"}
 	for _, op := range os {
 		mk := func(label string, nh int) *bsCase {
-			return &bsCase{optsNil: op.isNil, rm: op.rm, req: op.req, allow: op.allow, skew: op.skew, nh: nh, label: label}
+			return &bsCase{bsVal: bsVal{optsNil: op.isNil, rm: op.rm, req: op.req, allow: op.allow, skew: op.skew}, nh: nh, label: label}
 		}
 		rq := func(c *bsCase, w, g int, at int64, hdr []string, l brLayer) {
 			c.evs = append(c.evs, bsEv{r: &bsReq{w: w, g: g, at: at, hdr: hdr, brLayer: l}})
@@ -500,6 +547,29 @@ func bsEnumerate(emit func(*bsCase)) {
 			rq(c, 0, 0, 0, hGood, l)
 		}
 		emit(c)
+		// (7) several middleware VALUES side by side (a gateway-wide one and route-level ones with other options): what
+		// one was made with, and what went through it, must not show in another
+		for _, op2 := range os {
+			c := mk("values", 2)
+			c.more = []bsVal{{optsNil: op2.isNil, rm: op2.rm, req: op2.req, allow: op2.allow, skew: op2.skew}, {rm: "https://other.example/prm", req: []string{"zz"}}}
+			for v := 0; v < 3; v++ {
+				c.evs = append(c.evs, bsEv{wrap: true, hd: v % 2, mv: v})
+			}
+			full2 := append([]string{"x"}, op2.req...)
+			noexp := bsGood(append(append([]string{"zz"}, full...), full2...))
+			noexp.expZero = true
+			skewed := bsGood(append(append([]string{"zz"}, full...), full2...))
+			skewed.exp = -int64(time.Second)
+			for _, l := range []brLayer{bsGood(full), bsGood(full2), bsGood(nil), bsGood([]string{"zz"}), noexp, skewed, bad} {
+				for w := 0; w < 3; w++ {
+					rq(c, w, 0, 0, hGood, l)
+				}
+				for w := 0; w < 3; w++ {
+					rq(c, 2-w, 7, int64(w), hGood, l)
+				}
+			}
+			emit(c)
+		}
 		// (6) the rest of the request is not the middleware's business: every method, paths and queries that look
 		// special, the token in places other than the Authorization header; with and without a credential
 		c = mk("request-shape", 1)
@@ -573,22 +643,28 @@ func bsEnumerate(emit func(*bsCase)) {
 // Authorization values meet; scopes are drawn around the required set.
 func bsRandom(rng *rand.Rand) *bsCase {
 	c := &bsCase{label: "random", nh: 1 + rng.Intn(3)}
-	c.optsNil = rng.Intn(8) == 0
-	c.rm = []string{"", "https://rs.example/meta", "https://rs.example/m?x=\"1\"&y=\\"}[rng.Intn(3)]
-	if rng.Intn(4) > 0 {
-		c.req = brPick(rng, 4)
+	randVal := func() bsVal {
+		var v bsVal
+		v.optsNil = rng.Intn(8) == 0
+		v.rm = []string{"", "https://rs.example/meta", "https://rs.example/m?x=\"1\"&y=\\"}[rng.Intn(3)]
+		if rng.Intn(4) > 0 {
+			v.req = brPick(rng, 4)
+		}
+		v.allow = rng.Intn(3) == 0
+		if rng.Intn(3) == 0 {
+			v.skew = brMag(rng)
+		}
+		return v
 	}
-	c.allow = rng.Intn(3) == 0
-	if rng.Intn(3) == 0 {
-		c.skew = brMag(rng)
-	}
-	skewEff, reqEff := c.skew, c.req
-	if c.optsNil {
-		skewEff, reqEff = 0, nil
+	c.bsVal = randVal()
+	if rng.Intn(3) == 0 { // a second (third) middleware value next to the first
+		for n := 1 + rng.Intn(2); n > 0; n-- {
+			c.more = append(c.more, randVal())
+		}
 	}
 	nw := 0
 	wrap := func() {
-		c.evs = append(c.evs, bsEv{wrap: true, hd: rng.Intn(c.nh)})
+		c.evs = append(c.evs, bsEv{wrap: true, hd: rng.Intn(c.nh), mv: rng.Intn(1 + len(c.more))})
 		nw++
 	}
 	wrap()
@@ -610,6 +686,11 @@ func bsRandom(rng *rand.Rand) *bsCase {
 		for ; k > 0; k-- {
 			r := &bsReq{w: rng.Intn(nw), g: gid, hdr: hdrs[rng.Intn(len(hdrs))]}
 			l := brLayer{ek: "bare", mono: rng.Intn(3)}
+			val := c.val(c.valueOf(r.w))
+			skewEff, reqEff := val.skew, val.req
+			if val.optsNil {
+				skewEff, reqEff = 0, nil
+			}
 			if rng.Intn(5) == 0 {
 				v := brVerifiers[rng.Intn(len(brVerifiers))]
 				l.ve, l.ek, l.ed, l.vi = v.ve, v.ek, v.ed, v.vi
@@ -621,9 +702,9 @@ func bsRandom(rng *rand.Rand) *bsCase {
 				l.granted = append(append([]string{}, reqEff...), brPick(rng, 2)...)
 				rng.Shuffle(len(l.granted), func(i, j int) { l.granted[i], l.granted[j] = l.granted[j], l.granted[i] })
 			case 2: // one required scope removed
-				if len(c.req) > 0 {
-					drop := c.req[rng.Intn(len(c.req))]
-					for _, x := range c.req {
+				if len(val.req) > 0 {
+					drop := val.req[rng.Intn(len(val.req))]
+					for _, x := range val.req {
 						if x != drop {
 							l.granted = append(l.granted, x)
 						}
